@@ -24,6 +24,12 @@ func runPolicy(c *Ctx) {
 	for si, shape := range shapes {
 		slots := numberSlots(shape)
 		ks := kinds
+		if !c.Thorough() {
+			ks = []int{3, 6, 7}
+			if si > 0 {
+				ks = []int{3, 6}
+			}
+		}
 		if len(slots) > 4 {
 			ks = []int{3, 6}
 		}
@@ -58,9 +64,10 @@ func runPolicy(c *Ctx) {
 					per[i] = levelArgvs(n, policyUniverse)
 				}
 				// every combination of policies set per level along the path (other commands inherit)
-				npol := 1
-				for range p {
-					npol *= 3
+				// the root always sets one (3 values); deeper levels set one or inherit (4 values)
+				npol := 3
+				for range p[1:] {
+					npol *= 4
 				}
 				enumInvocations(p, names, per, func(args []string, own [][]string) {
 					for pc := 0; pc < npol; pc++ {
@@ -69,9 +76,14 @@ func runPolicy(c *Ctx) {
 							pols[i] = -1
 						}
 						x := pc
-						for _, n := range p {
-							pols[n.slot] = x % 3
-							x /= 3
+						for i, n := range p {
+							if i == 0 {
+								pols[n.slot] = x % 3
+								x /= 3
+							} else {
+								pols[n.slot] = x%4 - 1 // -1 = not set in the initializer: inherited from the parent
+								x /= 4
+							}
 						}
 						c.Beat()
 						policyCase(c, si, shape, as, pols, args)
@@ -80,7 +92,7 @@ func runPolicy(c *Ctx) {
 			})
 		})
 		if c.Shard == 0 {
-			c.Note(fmt.Sprintf("shape %d", si), fmt.Sprintf("%s: %d spec assignments over kinds %v (specs %s); every target x {primary, secondary} aliases x per-level argvs %v x every assignment of the three policies to the levels of the path (set inside each initializer)", shapeText(shape), ntrees, ks, kindSpecs(ks), policyUniverse))
+			c.Note(fmt.Sprintf("shape %d", si), fmt.Sprintf("%s: %d spec assignments over kinds %v (specs %s); every target x {primary, secondary} aliases x per-level argvs %v x every assignment of {Continue, Exit, Panic} to the root and of {inherit, Continue, Exit, Panic} to every deeper level of the path (set inside each initializer)", shapeText(shape), ntrees, ks, kindSpecs(ks), policyUniverse))
 		}
 	}
 }
@@ -139,8 +151,11 @@ func policyCase(c *Ctx, si int, shape *tnode, assign, pols []int, args []string)
 	if r.rejectAt.parent != nil {
 		c.Count("rejections_below_root", 1)
 	}
-	// effective policy of the rejecting command: its own setting (every level of the path sets one)
-	pol := pols[r.rejectAt.slot]
+	// effective policy of the rejecting command: its own setting, else the nearest ancestor's
+	pol := -1
+	for n := r.rejectAt; n != nil && pol < 0; n = n.parent {
+		pol = pols[n.slot]
+	}
 	bad := ""
 	if len(tr.calls) != 0 {
 		bad = "hooks/actions ran"
